@@ -1,19 +1,15 @@
 #!/bin/bash
-# usage: benign_rerun.sh [name…]  — applies each stored behaviour-preserving refactoring to /repo, runs every check, restores /repo.
-# Every check must stay silent (exit 0) on every one of them.
+# usage: benign_rerun.sh [name…]  — applies each stored behaviour-preserving refactoring to /repo, decides every property on it
+# (`qvet verdicts`: one load, all rules, nothing written) and restores /repo. Every property must stay silent on every one of them.
 cd /verif
 NAMES="$@"; [ -z "$NAMES" ] && NAMES=$(ls benign)
 for n in $NAMES; do
   P=/verif/benign/$n/patch.diff
+  [ -f $P ] || continue
   git -C /repo apply $P 2>/dev/null || { echo "$n: PATCH DOES NOT APPLY"; continue; }
-  RES=""
-  for p in $(./bin/qvet list | awk '{print $1}'); do
-    o=$(./bin/qvet check -property $p 2>&1); rc=$?
-    if [ $rc -ne 0 ]; then RES="$RES $p"; echo "$o" | grep -v "^VIOLATION property\|^qvet\|KNOWN-FINDING" | cut -c1-260 | sed "s/^/   [$n $p] /" | head -${BENIGN_LINES:-6}; fi
-  done
+  o=$(./bin/qvet verdicts 2>&1)
   git -C /repo checkout -- .
   for f in $(grep -A1 '^--- /dev/null' $P | grep '^+++ b/' | sed 's#^+++ b/##'); do rm -f /repo/$f; done
-  echo "$n ALARMS:$RES"
+  echo "$o" | grep "^   \[" | cut -c1-260 | head -${BENIGN_LINES:-12} | sed "s/^/   [$n]/"
+  echo "$n ALARMS:$(echo "$o" | awk '$2=="ALARM"{printf " %s",$1}') $(echo "$o" | grep -q '^C01 ' || echo ' (NO VERDICTS: '"$(echo "$o" | head -2)"')')"
 done
-# restore clean evidence
-for p in $(./bin/qvet list | awk '{print $1}'); do ./bin/qvet check -property $p >/dev/null 2>&1; done
